@@ -489,6 +489,55 @@ func runC10(w *World, r *Report, tier string) {
 		r.Check(okV, "R8", cons, w.ipos(a.Instr), "the queue of held stanzas is replaced outside EnableStreamManagement or by something other than a fresh queue", "fresh NewUnAckQueue() in EnableStreamManagement")
 	}
 	r.Floor("R8", 1)
+	// … and it is there once the server has said <enabled/>: without a queue Push is a no-op and nothing is held
+	{
+		esm := w.Func("xmpp.(*Session).EnableStreamManagement")
+		bad := ""
+		n := 0
+		err := walkPaths(entryLoc(esm), nil, nil, 50000, func(path []ssa.Instruction, end pathEnd) {
+			if _, isRet := path[len(path)-1].(*ssa.Return); !isRet {
+				return
+			}
+			enabled := pathAsserts(path, func(c ssa.Value, truth bool) bool {
+				T, ok := typeAssertOK(c, nil)
+				return ok && truth && w.typeStr(T) == "stanza.SMEnabled"
+			})
+			if !enabled {
+				return
+			}
+			n++
+			has := false
+			forPath(path, func(i int, in ssa.Instruction) {
+				st, ok := in.(*ssa.Store)
+				if !ok {
+					return
+				}
+				fa, ok := st.Addr.(*ssa.FieldAddr)
+				if !ok {
+					return
+				}
+				switch fieldOfAddr(fa) {
+				case fSessSM:
+					has = false
+					if fields, al := complitFields(st.Val); al != nil {
+						if qv, ok := fields["UnAckQueue"]; ok && w.isResultOf(origin(resolveOn(qv, i, path)), 0, "stanza.NewUnAckQueue") {
+							has = true
+						}
+					}
+				case fQ:
+					has = w.isResultOf(origin(resolveOn(st.Val, i, path)), 0, "stanza.NewUnAckQueue")
+				}
+			})
+			if !has {
+				bad = "after <enabled/> the session has no queue of unacknowledged stanzas (return at " + w.ipos(path[len(path)-1]) + "): Push on the missing queue does nothing, so nothing sent is held for retransmission"
+			}
+		})
+		if err != nil {
+			r.Undecided("R8", "xmpp.(*Session).EnableStreamManagement#queue-installed", w.pos(esm.Pos()), err.Error())
+		} else {
+			r.Check(bad == "" && n > 0, "R8", "xmpp.(*Session).EnableStreamManagement#queue-installed", w.pos(esm.Pos()), bad, fmt.Sprintf("%d <enabled/> path(s), each leaves a fresh queue in SMState", n))
+		}
+	}
 }
 
 // dependsOn: does v data-depend on root (through arithmetic, conversions, phis)?
